@@ -3,7 +3,8 @@
 `streams_hook(tel)` returns a telstate_hook.  `tel` is a JSON-able list of stream descriptions
   dict(name, type (stream_type or None), targets (None | list of target names: the VALUES of the stream's `targets`
        dict, keys are made-up descriptions), ants, pols (antlist / pol_ordering, [] = attribute absent),
-       spectral (bool: center_freq / bandwidth / n_chans present), n_chans, types (product types with one solution))
+       spectral (bool: center_freq / bandwidth / n_chans present), n_chans, types (product types with one solution),
+       sol_dump (optional: the dump during which that solution was derived, default 1))
 build_v4 must be called with archived_override=<sdp_archived_streams> so that katdal sees the streams.
 """
 import numpy as np
@@ -18,9 +19,10 @@ def product_value(ptype, n_chans, npol, nant, k=0):
     return np.full((npol, nant), 0.5 ** (k + 1), np.complex64)
 
 
-def solution_offset(k):
-    """time of the solution of stream number k, in dumps after the first dump (distinct per stream)"""
-    return 1.0 + 0.25 * (k % 4)
+def solution_offset(k, st=None):
+    """time of the solution of stream number k, in dumps after the middle of the first dump (distinct per stream):
+    inside dump st['sol_dump'] (default 1)"""
+    return float((st or {}).get('sol_dump', 1)) + 0.125 * (k % 4)
 
 
 def streams_hook(tel, sync_time=1600000000.0, first_timestamp=123.0, int_time=2.0):
@@ -44,5 +46,5 @@ def streams_hook(tel, sync_time=1600000000.0, first_timestamp=123.0, int_time=2.
             for ptype in st['types']:
                 cb.add('product_' + ptype,
                        product_value(ptype, int(st['n_chans']), max(len(st['pols']), 1), max(len(st['ants']), 1), k),
-                       ts=sync_time + first_timestamp + int_time * solution_offset(k))
+                       ts=sync_time + first_timestamp + int_time * solution_offset(k, st))
     return hook
